@@ -327,3 +327,176 @@ Proof.
   apply synced_prefix_survives.
   pose proof (ti_ok _ _ _ H) as Hok. apply Forall_app in Hok. tauto.
 Qed.
+
+(* ---------- what the head of every segment carries ---------- *)
+Definition state_rec (s : hardstate) : list (N * option bytes) :=
+  if hs_is_empty s then [] else [(c_stateType, Some (hs_marshal s))].
+Definition hdr (meta : option bytes) (st0 : hardstate) : list (N * option bytes) :=
+  (c_crcType, None) :: (c_metadataType, meta) :: state_rec st0.
+Definition head_ok (meta : option bytes) (recs : list (N * option bytes)) : Prop :=
+  exists st0 rest, recs = hdr meta st0 ++ rest.
+
+Lemma save_state_inv' w c0 recs s :
+  tinv w c0 recs -> hs_wf s -> tinv (save_state s w) c0 (recs ++ state_rec s).
+Proof.
+  intros H Hs. unfold save_state, state_rec. destruct (hs_is_empty s).
+  - now rewrite app_nil_r.
+  - apply w_encode_inv; [now apply w_set_state_inv|apply enc_ok_state].
+Qed.
+
+Lemma w_encode_meta ty d w : w_meta (w_encode ty d w) = w_meta w /\ w_state (w_encode ty d w) = w_state w.
+Proof. unfold w_encode, encode_rec, set_tail. cbn. auto. Qed.
+
+Lemma w_cut_head w c0 recs :
+  tinv w c0 recs -> exists c0', tinv (w_cut w) c0' (hdr (w_meta w) (w_state w)) /\ w_meta (w_cut w) = w_meta w.
+Proof.
+  intros H. unfold w_cut.
+  pose proof (w_sync_op_inv w c0 recs (negb (w_opt w)) H) as H1.
+  set (w1 := w_sync_op (negb (w_opt w)) w) in *.
+  assert (Hms1 : w_meta w1 = w_meta w /\ w_state w1 = w_state w) by (split; reflexivity).
+  clearbody w1.
+  destruct H1 as [Hc0 Hok Ht Hc Hpw Hs Hm Hme Hst Hf].
+  set (w2 := {| w_opt := w_opt w1; w_segsize := w_segsize w1; w_meta := w_meta w1; w_state := w_state w1;
+               w_enti := w_enti w1; w_crc := w_crc w1;
+               w_closed := w_closed w1 ++ [{| sg_seq := w_seq w1; sg_idx := w_idx w1; sg_bytes := w_tail w1; sg_rec := w_tailrec w1 |}];
+               w_seq := w_seq w1 + 1; w_idx := w_enti w1 + 1; w_tail := [];
+               w_pw := {| pw_off := 0; pw_buf := 0; pw_flushed := 0 |};
+               w_sync := w_sync w1; w_nrec := w_nrec w1; w_tailrec := w_nrec w1 |}).
+  assert (H2 : tinv w2 (w_crc w1) []).
+  { constructor; cbn [w2 w_tail w_crc w_pw w_sync w_seq w_meta w_state]; auto.
+    - rewrite Hc. now apply encode_all_crc_lt.
+    - intros s Hss Hseq. specialize (Hm s Hss). lia.
+    - intros s Hss. specialize (Hm s Hss). lia.
+    - lia. }
+  assert (Hms2 : w_meta w2 = w_meta w /\ w_state w2 = w_state w) by exact Hms1.
+  clearbody w2.
+  pose proof (w_encode_inv _ _ _ c_crcType None H2 enc_ok_crc) as H3.
+  set (w3 := w_encode c_crcType None w2) in *.
+  assert (Hm3 : w_meta w3 = w_meta w /\ w_state w3 = w_state w).
+  { subst w3. destruct (w_encode_meta c_crcType None w2) as [-> ->]. exact Hms2. }
+  clearbody w3.
+  pose proof (w_encode_inv _ _ _ c_metadataType (w_meta w3) H3 (enc_ok_meta _ (ti_meta _ _ _ H3))) as H4.
+  set (w4 := w_encode c_metadataType (w_meta w3) w3) in *.
+  assert (Hm4 : w_meta w4 = w_meta w /\ w_state w4 = w_state w).
+  { subst w4. destruct (w_encode_meta c_metadataType (w_meta w3) w3) as [-> ->]. exact Hm3. }
+  clearbody w4.
+  pose proof (save_state_inv' _ _ _ (w_state w4) H4 (ti_state _ _ _ H4)) as H5.
+  set (w5 := save_state (w_state w4) w4) in *.
+  assert (Hm5 : w_meta w5 = w_meta w).
+  { subst w5. unfold save_state. destruct (hs_is_empty (w_state w4)); [apply Hm4|].
+    destruct (w_encode_meta c_stateType (Some (hs_marshal (w_state w4))) (w_set_state w4 (w_state w4))) as [-> _].
+    cbn [w_set_state w_meta]. apply Hm4. }
+  clearbody w5.
+  pose proof (w_sync_op_inv _ _ _ (negb (w_opt w5)) H5) as H6.
+  set (w6 := w_sync_op (negb (w_opt w5)) w5) in *.
+  assert (Hb0 : pw_buf (w_pw w6) = 0) by (subst w6; cbn [w_sync_op w_pw]; apply pw_flush_total).
+  assert (Hmeta6 : w_meta w6 = w_meta w) by (subst w6; exact Hm5).
+  clearbody w6.
+  exists (w_crc w1). split; [|exact Hmeta6].
+  destruct Hm3 as [Hm3 _]. destruct Hm4 as [_ Hs4].
+  assert (E : hdr (w_meta w) (w_state w) = (c_crcType, None) :: (c_metadataType, w_meta w3) :: state_rec (w_state w4)).
+  { rewrite Hm3, Hs4. reflexivity. }
+  rewrite E. cbn [app] in H6.
+  destruct H6 as [Gc0 Gok Gt Gc Gpw Gs Gm Gme Gst Gf].
+  constructor; cbn [set_tail w_tail w_crc w_pw w_sync w_seq w_meta w_state]; auto;
+    try (unfold pw_total in *; cbn [pw_flushed pw_buf]; lia).
+Qed.
+
+(* one operation either appends records to the tail or starts a new segment with a full head *)
+Lemma w_save_head w c0 recs st ents :
+  tinv w c0 recs -> hs_wf st -> Forall entry_wf ents ->
+  (exists recs', tinv (w_save st ents w) c0 (recs ++ recs') /\ w_meta (w_save st ents w) = w_meta w) \/
+  (exists c0' st0, tinv (w_save st ents w) c0' (hdr (w_meta w) st0) /\ w_meta (w_save st ents w) = w_meta w).
+Proof.
+  intros H Hst Hents. unfold w_save.
+  destruct (hs_is_empty st && match ents with [] => true | _ => false end).
+  { left. exists []. now rewrite app_nil_r. }
+  cbv zeta.
+  destruct (save_entries_inv ents w c0 recs H Hents) as (r1 & H1).
+  pose proof (save_state_inv' _ _ _ st H1 Hst) as H2.
+  set (w2 := save_state st (fold_left (fun w e => save_entry e w) ents w)) in *.
+  assert (Hmeta : w_meta w2 = w_meta w).
+  { subst w2. unfold save_state.
+    assert (Hf : w_meta (fold_left (fun w e => save_entry e w) ents w) = w_meta w).
+    { clear. revert w. induction ents as [|e r IH]; intros w; [reflexivity|]. cbn [fold_left]. rewrite IH.
+      unfold save_entry. cbn [w_set_enti w_meta]. apply w_encode_meta. }
+    destruct (hs_is_empty st); [exact Hf|].
+    destruct (w_encode_meta c_stateType (Some (hs_marshal st)) (w_set_state (fold_left (fun w e => save_entry e w) ents w) st)) as [-> _].
+    exact Hf. }
+  destruct (pw_flushed (w_pw w2) <? w_segsize w2).
+  - left. exists (r1 ++ state_rec st). rewrite app_assoc.
+    destruct (negb _ || _).
+    + split; [apply w_sync_op_inv; exact H2|exact Hmeta].
+    + split; [exact H2|exact Hmeta].
+  - right. destruct (w_cut_head _ _ _ H2) as (c0' & Hc & Hm). exists c0', (w_state w2).
+    rewrite Hmeta in Hc. split; [exact Hc|]. now rewrite Hm.
+Qed.
+
+Definition tail_head_inv (w : wal) : Prop :=
+  exists c0 recs, tinv w c0 recs /\ head_ok (w_meta w) recs.
+
+Lemma head_ok_app meta recs more : head_ok meta recs -> head_ok meta (recs ++ more).
+Proof. intros (st0 & rest & ->). exists st0, (rest ++ more). now rewrite app_assoc. Qed.
+
+Lemma w_save_snapshot_head w c0 recs s :
+  tinv w c0 recs -> head_ok (w_meta w) recs -> snap_wf s -> tail_head_inv (w_save_snapshot s w).
+Proof.
+  intros H1 Hh Hs. unfold w_save_snapshot.
+  pose proof (w_encode_inv _ _ _ c_snapshotType (Some (snap_marshal s)) H1 (enc_ok_snap s)) as H2.
+  set (w1 := w_encode c_snapshotType (Some (snap_marshal s)) w) in *.
+  assert (Hm1 : w_meta w1 = w_meta w) by (subst w1; apply w_encode_meta).
+  clearbody w1.
+  exists c0, (recs ++ [(c_snapshotType, Some (snap_marshal s))]).
+  destruct (w_enti w1 <? sn_index s).
+  - split; [apply w_sync_op_inv; now apply w_set_enti_inv|].
+    cbn [w_sync_op w_set_enti w_meta]. rewrite Hm1. now apply head_ok_app.
+  - split; [apply w_sync_op_inv; exact H2|].
+    cbn [w_sync_op w_meta]. rewrite Hm1. now apply head_ok_app.
+Qed.
+
+Lemma w_step_head w o : tail_head_inv w -> op_wf o -> tail_head_inv (w_step w o).
+Proof.
+  intros (c0 & recs & H & Hh) Ho. unfold w_step.
+  pose proof (w_add_nrec_inv w c0 recs (wop_nrec o) H) as H1.
+  destruct o as [st ents|s|i|]; cbn [op_wf] in Ho.
+  - destruct Ho as [Hst Hents].
+    destruct (w_save_head _ _ _ st ents H1 Hst Hents) as [(r' & Hi & Hm)|(c0' & st0 & Hi & Hm)].
+    + exists c0, (recs ++ r'). split; [exact Hi|]. rewrite Hm. now apply head_ok_app.
+    + exists c0', (hdr (w_meta (w_add_nrec w (wop_nrec (OSave st ents)))) st0). split; [exact Hi|].
+      rewrite Hm. exists st0, []. now rewrite app_nil_r.
+  - eapply w_save_snapshot_head; eauto.
+  - exists c0, recs. split; [|exact Hh]. destruct H1 as [? ? ? ? ? ? ? ? ? ?]. unfold w_release. constructor; auto.
+  - exists c0, recs. split; [now apply w_sync_op_inv|exact Hh].
+Qed.
+
+Lemma w_create_head opt seg meta : data_ok meta -> tail_head_inv (w_create opt seg meta).
+Proof.
+  intros Hm. unfold w_create.
+  set (w0 := {| w_opt := opt; w_segsize := seg; w_meta := meta; w_state := hs_empty; w_enti := 0; w_crc := 0;
+               w_closed := []; w_seq := 0; w_idx := 0; w_tail := [];
+               w_pw := {| pw_off := 0; pw_buf := 0; pw_flushed := 0 |};
+               w_sync := None; w_nrec := 1; w_tailrec := 0 |}).
+  assert (H0 : tinv w0 0 []).
+  { constructor; cbn [w0 w_tail w_crc w_pw w_sync w_seq w_meta w_state]; auto; try reflexivity; try discriminate.
+    unfold hs_wf. cbn. repeat split; reflexivity. }
+  pose proof (w_encode_inv _ _ _ c_crcType None H0 enc_ok_crc) as H1.
+  pose proof (w_encode_inv _ _ _ c_metadataType meta H1 (enc_ok_meta _ Hm)) as H2.
+  set (w2 := w_encode c_metadataType meta (w_encode c_crcType None w0)) in *.
+  assert (Hm2 : w_meta w2 = meta).
+  { subst w2. rewrite (proj1 (w_encode_meta _ _ _)), (proj1 (w_encode_meta _ _ _)). reflexivity. }
+  clearbody w2. clear H0 H1 w0.
+  eapply w_save_snapshot_head; [exact H2| |split; reflexivity].
+  rewrite Hm2. exists hs_empty, []. reflexivity.
+Qed.
+
+(* every segment the wal is writing starts with its crc record, the metadata and — when there is one — the
+   hard state as of the cut: a reader that starts at this segment knows the newest hard state before it *)
+Theorem w_run_head opt seg meta ops :
+  data_ok meta -> Forall op_wf ops -> tail_head_inv (w_run opt seg meta ops).
+Proof.
+  intros Hm Hops. unfold w_run.
+  pose proof (w_create_head opt seg meta Hm) as H0.
+  revert H0. generalize (w_create opt seg meta).
+  induction Hops as [|o r Ho Hr IH]; intros w Hw; [exact Hw|].
+  cbn [fold_left]. apply IH. now apply w_step_head.
+Qed.
